@@ -671,3 +671,290 @@ def oracle(system, request, cfg, obs, exact=None) -> list[tuple[str, str]]:
             seen.add(k)
             out.append((k, m))
     return out
+
+
+# --------------------------------------------------------------------------- scope of a request
+
+LANCZOS = ("BICG", "BICGSTAB", "CGS", "TFQMR")  # may break down (SciPy): see notes/C07.md
+
+
+def _disc_reach(system) -> list[list[bool]]:
+    """reach[a][b]: discipline b depends (reflexively, transitively) on an output of discipline a."""
+    prod = producers(system)
+    n = len(system["discs"])
+    reach = [[a == b for b in range(n)] for a in range(n)]
+    for i, d in enumerate(system["discs"]):
+        for v in d["ins"]:
+            if v in prod:
+                reach[prod[v]][i] = True
+    for k in range(n):
+        for a in range(n):
+            for b in range(n):
+                reach[a][b] = reach[a][b] or (reach[a][k] and reach[k][b])
+    return reach
+
+
+def connected(system, request) -> bool:
+    """Every requested function is computed by a discipline that depends (at the level of the
+    discipline graph) on a requested variable, and every requested variable feeds a discipline on
+    which a requested function depends.  Requests with a structurally independent function or
+    variable make `JacobianAssembly` raise on purpose ("Failed to determine the size of input
+    variable", tested by the test-suite): they are outside the in-scope stream (probe only)."""
+    prod = producers(system)
+    reach = _disc_reach(system)
+    users = {x: [k for k, d in enumerate(system["discs"]) if x in d["ins"]] for x in request["variables"]}
+    fprod = {f: prod[f] for f in request["functions"]}
+    for f, pf in fprod.items():
+        if not any(reach[u][pf] for x in request["variables"] for u in users[x]):
+            return False
+    for x in request["variables"]:
+        if not any(reach[u][pf] for u in users[x] for pf in fprod.values()):
+            return False
+    return True
+
+
+def needs_couplings(system, request) -> bool:
+    """Some coupling variable lies on a dependency path of the request (else the code has an empty
+    residual system)."""
+    prod = producers(system)
+    reach = _disc_reach(system)
+    cpl = set(all_couplings(system))
+    src = {k for k, d in enumerate(system["discs"]) if set(d["ins"]) & set(request["variables"])}
+    dst = {prod[f] for f in request["functions"]}
+    for k, d in enumerate(system["discs"]):
+        on_path = any(reach[s][k] for s in src) and any(reach[k][t] for t in dst)
+        if not on_path:
+            continue
+        names = set(d["ins"]) | set(d["outs"])
+        if names & cpl:
+            return True
+    return False
+
+
+# --------------------------------------------------------------------------- cases
+
+
+def gen_case(rng, system=None) -> dict[str, Any]:
+    system = system or gen_system(rng)
+    cfg0 = gen_config(rng, system)
+    steps = []
+    n_steps = rng.pick([2, 2, 3]) if cfg0["path"] == "assembly" else 1
+    for _ in range(n_steps):
+        for _try in range(20):
+            req = gen_request(rng, system)
+            if connected(system, req):
+                break
+        else:
+            continue
+        c = gen_config(rng, system, cfg0["path"])
+        steps.append({**req, "mode": c["mode"], "matrix_type": c["matrix_type"], "lu": c["lu"], "solver": c["solver"]})
+    return {"system": system, "path": cfg0["path"], "kinds": cfg0["kinds"], "steps": steps}
+
+
+def step_cfg(case, step) -> dict[str, Any]:
+    return {
+        "path": case["path"],
+        "kinds": case["kinds"],
+        "mode": step["mode"],
+        "matrix_type": step["matrix_type"],
+        "lu": step["lu"],
+        "solver": step["solver"],
+    }
+
+
+def run_case(case) -> list[dict[str, Any]]:
+    """Observations of the real code, one per step."""
+    system = case["system"]
+    obs = []
+    if case["path"] == "assembly":
+        sess = AssemblySession(system, case["kinds"])
+        for st in case["steps"]:
+            obs.append(sess.total(st, step_cfg(case, st)))
+    else:
+        for st in case["steps"]:
+            obs.append(run_mda(system, st, step_cfg(case, st)))
+    return obs
+
+
+def case_failures(case, exact=None) -> list[tuple[int, str, str]]:
+    """(step index, key, message) for every property clause the real code violates on the case."""
+    system = case["system"]
+    exact = exact or exact_total(system)
+    out = []
+    observations = run_case(case)
+    for k, (st, ob) in enumerate(zip(case["steps"], observations)):
+        cfg = step_cfg(case, st)
+        bad = oracle(system, st, cfg, ob, exact)
+        if bad and st["solver"] in LANCZOS:
+            if any(key.startswith("raises:E:runtime") for key, _ in bad):
+                out.append((k, "probe:solver-breakdown", bad[0][1]))
+                continue
+            # accuracy of a Lanczos-type solver: only a violation when GMRES shows the same failure
+            alt = copy.deepcopy(case)
+            for s2 in alt["steps"]:
+                s2["solver"] = "GMRES"
+            ob2 = run_case(alt)[k]
+            bad2 = oracle(system, alt["steps"][k], step_cfg(alt, alt["steps"][k]), ob2, exact)
+            if not bad2:
+                out.append((k, "probe:solver-accuracy", bad[0][1]))
+                continue
+            bad = bad2
+        for key, msg in bad:
+            out.append((k, key, msg))
+    return out
+
+
+# --------------------------------------------------------------------------- shrinking
+
+
+def _drop_disc(system, k):
+    """Remove discipline k and every reference to its outputs."""
+    s = copy.deepcopy(system)
+    d = s["discs"].pop(k)
+    gone = set(d["outs"]) | set(d.get("states", {})) | set(d.get("states", {}).values())
+    for e in s["discs"]:
+        e["ins"] = [i for i in e["ins"] if i not in gone]
+        for o in e["A"]:
+            e["A"][o] = {i: m for i, m in e["A"][o].items() if i not in gone}
+    used = {v for e in s["discs"] for v in [*e["ins"], *e["outs"], *e.get("states", {}), *e.get("states", {}).values()]}
+    s["sizes"] = {v: n for v, n in s["sizes"].items() if v in used}
+    return s
+
+
+def _drop_output(system, k, o):
+    s = copy.deepcopy(system)
+    d = s["discs"][k]
+    if len(d["outs"]) <= 1 or o not in d["outs"]:
+        return None
+    d["outs"].remove(o)
+    d["A"].pop(o, None)
+    d["c"].pop(o, None)
+    for e in s["discs"]:
+        e["ins"] = [i for i in e["ins"] if i != o]
+        for oo in e["A"]:
+            e["A"][oo].pop(o, None)
+    s["sizes"].pop(o, None)
+    return s
+
+
+def _shrink_var(system, v):
+    """Drop the last component of variable v (rows / columns of every block); a state and its
+    residual shrink together."""
+    s = copy.deepcopy(system)
+    group = {v}
+    for r, w in all_states(s).items():
+        if v in (r, w):
+            group |= {r, w}
+    if s["sizes"][v] <= 1:
+        return None
+    for g in group:
+        s["sizes"][g] -= 1
+    for d in s["discs"]:
+        for o, bl in d["A"].items():
+            for i in list(bl):
+                m = bl[i]
+                if o in group:
+                    m = m[:-1]
+                if i in group:
+                    m = [row[:-1] for row in m]
+                bl[i] = m
+        for o in list(d["c"]):
+            if o in group:
+                d["c"][o] = d["c"][o][:-1]
+    return s
+
+
+def _valid_case(case) -> bool:
+    system = case["system"]
+    if not in_scope(system) or exact_total(system) is None:
+        return False
+    prod = producers(system)
+    xs = set(design_inputs(system))
+    res = set(all_states(system))
+    for st in case["steps"]:
+        if not st["functions"] or not st["variables"]:
+            return False
+        if any(f not in prod or f in res for f in st["functions"]) or any(x not in xs for x in st["variables"]):
+            return False
+        if not connected(system, st):
+            return False
+    if case["path"] == "MDANewtonRaphson" and not strongly_coupled_only(system):
+        return False
+    return len(case["kinds"]) == len(system["discs"]) and bool(case["steps"])
+
+
+def shrink_case(case, key, budget=60) -> dict[str, Any]:
+    """Greedy reduction keeping `key` among the failures (every candidate is re-validated as in-scope)."""
+
+    calls = [0]
+
+    def fails(c) -> bool:
+        if calls[0] >= budget or not _valid_case(c):
+            return False
+        calls[0] += 1
+        try:
+            return any(k == key for _, k, _ in case_failures(c))
+        except Exception:  # noqa: BLE001
+            return False
+
+    cur = copy.deepcopy(case)
+    # 1. steps: keep a prefix ending at the failing step, then try the failing step alone
+    fl = [k for k, kk, _ in case_failures(cur) if kk == key]
+    if fl:
+        cur["steps"] = cur["steps"][: fl[0] + 1]
+        alone = {**cur, "steps": [cur["steps"][-1]]}
+        if len(cur["steps"]) > 1 and fails(alone):
+            cur = alone
+    # 2. single function / variable in the last step
+    last = cur["steps"][-1]
+    for fld in ("functions", "variables"):
+        for name in list(last[fld]):
+            if len(last[fld]) > 1:
+                c = copy.deepcopy(cur)
+                c["steps"][-1][fld] = [n for n in last[fld] if n != name]
+                if fails(c):
+                    cur = c
+                    last = cur["steps"][-1]
+    # 3. dense kinds, default solver
+    for mod in (lambda c: c.update(kinds=["dense"] * len(c["kinds"])), lambda c: [s.update(solver="DEFAULT") for s in c["steps"]]):
+        c = copy.deepcopy(cur)
+        mod(c)
+        if c != cur and fails(c):
+            cur = c
+    # 4. drop disciplines / outputs, shrink variable sizes
+    progress = True
+    while progress and calls[0] < budget:
+        progress = False
+        for k in range(len(cur["system"]["discs"])):
+            c = copy.deepcopy(cur)
+            c["system"] = _drop_disc(cur["system"], k)
+            c["kinds"] = cur["kinds"][:k] + cur["kinds"][k + 1 :]
+            if fails(c):
+                cur, progress = c, True
+                break
+        if progress:
+            continue
+        for k, d in enumerate(cur["system"]["discs"]):
+            for o in list(d["outs"]):
+                s2 = _drop_output(cur["system"], k, o)
+                if s2 is None:
+                    continue
+                c = copy.deepcopy(cur)
+                c["system"] = s2
+                if fails(c):
+                    cur, progress = c, True
+                    break
+            if progress:
+                break
+        if progress:
+            continue
+        for v in list(cur["system"]["sizes"]):
+            s2 = _shrink_var(cur["system"], v)
+            if s2 is None:
+                continue
+            c = copy.deepcopy(cur)
+            c["system"] = s2
+            if fails(c):
+                cur, progress = c, True
+                break
+    return cur
